@@ -18,7 +18,7 @@ META = dict(
     stubs=["cvxpy/CBC/GLPK = contract stub recording solver choice, objective, constraint rows", "import cylp = succeeds / ImportError",
            "first solve() raising cvxpy.SolverError (configuration)"],
     assumptions=["pair dissimilarities symmetric and >= 0", "delta_empty > 0"],
-    cfg_budget_s=dict(quick=200, thorough=1700),
+    cfg_budget_s=dict(quick=200, thorough=900),
 )
 
 
